@@ -34,7 +34,10 @@ RULE = ("every (rows, cols, #data variables 1..4 (and data=None), #extra coordin
         "Datasets assembled coordinates-first (make_xarray_grid(data=None) then item assignment, DataArray.to_dataset(), "
         "xr.Dataset(coords=...) then assign) whose Dataset-level dimension order is the reverse of their variables' with 1..3 2-D extra "
         "coordinates; single-row (1 x n) and single-column (n x 1) 2-D coordinate inputs that are not meshgrids (northing varying along "
-        "the row / easting varying down the column) with genuine single row / column meshgrids as controls; meshgrids whose two coordinates differ in magnitude by 1e3 .. 1e7 (either way round) with one "
+        "the row / easting varying down the column) with genuine single row / column meshgrids as controls; data_names / extra_coords_names as one-character str, str with as many characters as arrays, "
+        "list, tuple, one short, one long, for 1..4 arrays (a str is ONE name); Datasets / DataArrays / make_xarray_grid inputs whose variables "
+        "and extra coordinates have different dtypes (float64 next to int64 / uint64 beyond 2**53 resp. 2**63, float32, int32, bool), every value "
+        "transported exactly (integers as Python ints, never through float); meshgrids whose two coordinates differ in magnitude by 1e3 .. 1e7 (either way round) with one "
         "node of the small coordinate displaced by 100x its own allclose tolerance (rejected) or 1/100 of it (accepted); NaN-valued cells (a few cells, a whole row or column, one variable only, "
         "one cell in every variable, only extra coordinates, a whole variable, a third of all entries) in data and extra coordinates for "
         "make_xarray_grid, the round trip and grid_to_table on Datasets / DataArrays / members / coordinates-first Datasets, NaN compared "
@@ -44,7 +47,7 @@ RULE = ("every (rows, cols, #data variables 1..4 (and data=None), #extra coordin
 ASSUMPTIONS = [
     "xarray.Dataset(data_vars, coords) keeps the insertion order of coords and data_vars, raises ValueError on conflicting sizes and on equal dimension names (modelled by xr_dataset; the order is observed on every run)",
     "numpy.allclose is modelled in exact rational arithmetic with the double constants rtol=1e-5, atol=1e-8; generated perturbations are either 0, <= 1e-10 relative (accepted) or >= 1e-3 relative (rejected), never near the boundary",
-    "array entries are finite doubles or NaN (passed as option D, None = NaN, compared position by position; infinities are not generated; ints are converted exactly); 1-D coordinate vectors are finite; names are pairwise distinct; no zero-length axis in 2-D coordinate input; grid_to_table input has at least one data variable",
+    "array entries are finite doubles, float32, integers / booleans of any width (passed exactly as dyadics via Python ints) or NaN (option D, None = NaN, compared position by position; infinities are not generated); values are compared, not dtypes; 1-D coordinate vectors are finite; names are pairwise distinct; no zero-length axis in 2-D coordinate input; grid_to_table input has at least one data variable",
     "numpy.meshgrid(e, n) is modelled by its definition (rows are copies of e; row i of the second output is constant n[i]); ndarray.ravel() is C order (concat of rows); pandas.DataFrame(dict) keeps key order",
 ]
 TRUSTED = ["python harness harness/c18.py (generators, conversion of xarray.Dataset / DataArray / pandas.DataFrame objects to model records, verdict parsing)"]
@@ -53,15 +56,36 @@ TRUSTED = ["python harness harness/c18.py (generators, conversion of xarray.Data
 # ---------------------------------------------------------------------------
 # Coq literals
 # ---------------------------------------------------------------------------
+def cval(x):
+    """one array entry as option D, exactly: integers and booleans of any width go through Python ints (never through a
+    float), float32 / float64 through their exact double value; None is NaN (infinities are never generated)"""
+    if isinstance(x, (bool, np.bool_)):
+        x = int(x)
+    if isinstance(x, (int, np.integer)):
+        n = int(x)
+        if n == 0:
+            return "(Some (0,0)%Z)"
+        e = 0
+        while n % 2 == 0:       # the normal form of Lib.Dyadic.DF: odd mantissa
+            n //= 2
+            e += 1
+        return "(Some (%s,%s)%%Z)" % (("(%d)" % n) if n < 0 else "%d" % n, e)
+    if isinstance(x, (float, np.floating)):
+        x = float(x)
+        assert not np.isinf(x)
+        return cOD(x)
+    raise Unsupported("array entry of type %r" % type(x))
+
+
 def cvec(v):
-    """every entry as option D: None is NaN (infinities are never generated)"""
-    v = np.asarray(v, dtype=float).ravel()
-    assert not np.isinf(v).any()
-    return clist([cOD(x) for x in v])
+    v = np.asarray(v)
+    if v.dtype.kind not in "biuf":
+        raise Unsupported("dtype %r" % v.dtype)
+    return clist([cval(x) for x in v.ravel()])
 
 
 def carr(a):
-    a = np.asarray(a, dtype=float)
+    a = np.asarray(a)
     assert a.ndim == 2
     return clist([cvec(r) for r in a])
 
@@ -75,7 +99,7 @@ def cnames(nm):
 
 
 def cnd(a):
-    a = np.asarray(a, dtype=float)
+    a = np.asarray(a)
     return "(A1 %s)" % cvec(a) if a.ndim == 1 else "(A2 %s)" % carr(a)
 
 
@@ -147,7 +171,7 @@ def _nonan(x):
 
 def jarr(a):
     """JSON-able nested lists; NaN is written as null"""
-    return None if a is None else _nonan(np.asarray(a, dtype=float).tolist())
+    return None if a is None else _nonan(np.asarray(a).tolist())
 
 
 def jds(ds):
@@ -194,6 +218,49 @@ def field(rnd, nn, ne, base):
     """all-distinct values: base + 16*i + j + a random eighth, random sign of the whole field"""
     a = np.array([[base + 16.0 * i + j + rnd.randrange(8) / 8.0 for j in range(ne)] for i in range(nn)])
     return -a if rnd.random() < 0.25 else a
+
+
+DTYPES = ["float64", "float32", "int64", "int64-big", "uint64-big", "int32", "bool"]
+
+
+def as_dtype(a, spec, k):
+    """the all-distinct field [a] re-expressed in dtype [spec]; the -big variants are beyond 2**53 (nanosecond
+    timestamps) resp. 2**63, with odd and even values, so that any detour through float64 changes them"""
+    nn, ne = a.shape
+    idx = np.array([[16 * i + j for j in range(ne)] for i in range(nn)], dtype=object)
+    if spec == "float64":
+        return a
+    if spec == "float32":
+        return a.astype(np.float32)
+    if spec == "int64":
+        return a.astype(np.int64)
+    if spec == "int32":
+        return a.astype(np.int32)
+    if spec == "bool":
+        return np.array([[(i + j + k) % 2 == 0 for j in range(ne)] for i in range(nn)])
+    if spec == "int64-big":
+        return np.array((idx * 3 + 1_600_000_000_000_000_001 + 1000 * k).tolist(), dtype=np.int64)
+    if spec == "uint64-big":
+        return np.array((idx * 5 + 2 ** 63 + 12345 + 1000 * k).tolist(), dtype=np.uint64)
+    raise ValueError(spec)
+
+
+def mixed_dtypes(rnd, arrs, xs):
+    """give the data arrays and extra coordinates different dtypes (in place in the lists); with two or more
+    variables a float64 one always sits next to a 64-bit integer one beyond 2**53"""
+    nd = len(arrs)
+    specs = [rnd.choice(DTYPES) for _ in range(nd)]
+    if nd >= 2:
+        i, j = rnd.sample(range(nd), 2)
+        specs[i] = "float64"
+        specs[j] = rnd.choice(["int64-big", "int64-big", "uint64-big"])
+    elif nd == 1 and rnd.random() < 0.5:
+        specs[0] = rnd.choice(["int64-big", "uint64-big"])
+    for k in range(nd):
+        arrs[k] = as_dtype(arrs[k], specs[k], k)
+    for k in range(len(xs)):
+        xs[k] = as_dtype(xs[k], rnd.choice(DTYPES), 10 + k)
+    return specs
 
 
 NAN_PATTERNS = ["few", "row", "column", "one-var", "cell-all", "extra", "whole-var", "many"]
@@ -247,7 +314,7 @@ def name_style(rnd, names):
     return list(names) if rnd.random() < 0.5 else tuple(names)
 
 
-def build(rnd, nn, ne, nd, nx, two_d, dims=None, nan=None):
+def build(rnd, nn, ne, nd, nx, two_d, dims=None, nan=None, dtypes=False):
     """a valid make_xarray_grid argument set"""
     e, n = axes(rnd, nn, ne)
     if two_d:
@@ -264,6 +331,8 @@ def build(rnd, nn, ne, nd, nx, two_d, dims=None, nan=None):
         arrs = [field(rnd, nn, ne, 100.0 * (k + 1)) for k in range(nd)]
         if nan:
             nanify(rnd, arrs, extras, nan)
+        if dtypes:
+            mixed_dtypes(rnd, arrs, extras)
         names = rnd.sample(DNAMES, nd)
         if nd == 1 and rnd.random() < 0.6:
             data = arrs[0]
@@ -300,7 +369,7 @@ def jargs(a):
 
 def repro_make(a, tail):
     def r(x):
-        return ("np.array(%r)" % (np.asarray(x, dtype=float).tolist(),)).replace("nan", "np.nan")
+        return lit(x)
     d = a["data"]
     ds = "None" if d is None else ("(" + "".join(r(x) + "," for x in d) + ")" if isinstance(d, tuple) else r(d))
     kw = "extra_coords_names=%r" % (a["xnames"],)
@@ -363,10 +432,11 @@ def case_table(vd, g, kind, stream_key, recipe):
 # direct xarray construction for grid_to_table
 # ---------------------------------------------------------------------------
 def lit(x):
-    return ("np.array(%r)" % (np.asarray(x).tolist(),)).replace("nan", "np.nan")
+    x = np.asarray(x)
+    return ("np.array(%r, dtype=%r)" % (x.tolist(), str(x.dtype))).replace("nan", "np.nan")
 
 
-def direct_grid(rnd, nn, ne, nd, nx, dims, perm, mode, transposed=(), as_int=False, nan=None):
+def direct_grid(rnd, nn, ne, nd, nx, dims, perm, mode, transposed=(), as_int=False, nan=None, dtypes=False):
     """build (grid, recipe).  mode: 'dataset' | 'named' | 'unnamed' | 'member'.
     perm: order in which the coordinates [d0, d1, extras...] are declared.
     transposed: set of ("data", k) / ("extra", k) stored as (d1, d0); "T": the DataArray itself is transposed."""
@@ -384,6 +454,8 @@ def direct_grid(rnd, nn, ne, nd, nx, dims, perm, mode, transposed=(), as_int=Fal
         arrs = [a.astype(int) for a in arrs]
     elif nan:
         nanify(rnd, arrs if mode in ("dataset", "member") else arrs[:1], xs, nan)
+    elif dtypes:
+        mixed_dtypes(rnd, arrs, xs)
     decl = [(d0, "idx", n), (d1, "idx", e)] + [(xnames[k], ("extra", k), xs[k]) for k in range(nx)]
     decl = [decl[i] for i in perm]
     coords, csrc = {}, []
@@ -423,7 +495,7 @@ def direct_grid(rnd, nn, ne, nd, nx, dims, perm, mode, transposed=(), as_int=Fal
     return g, recipe
 
 
-def coords_first_grid(vd, rnd, nn, ne, nd, nx, dims, how, transposed=(), nan=None):
+def coords_first_grid(vd, rnd, nn, ne, nd, nx, dims, how, transposed=(), nan=None, dtypes=False):
     """a Dataset assembled coordinates-first, so that the Dataset-level dimension order is (d1, d0) while every
     variable is declared (d0, d1).  how: 'make-none' (make_xarray_grid(data=None) then item assignment) |
     'to_dataset' (a member DataArray of a complete grid turned back into a Dataset, other variables re-assigned) |
@@ -438,6 +510,8 @@ def coords_first_grid(vd, rnd, nn, ne, nd, nx, dims, how, transposed=(), nan=Non
     arrs = [field(rnd, nn, ne, 100.0 * (k + 1)) for k in range(nd)]
     if nan:
         nanify(rnd, arrs, xs, nan)
+    if dtypes:
+        mixed_dtypes(rnd, arrs, xs)
 
     def var(k):
         if ("data", k) in transposed:
@@ -619,7 +693,8 @@ def generate(tier, seed, mixed=True):
     # 3. malformed inputs, one fault each
     faults = ["E-row", "E-row0", "N-col", "N-col0", "swapped", "transposed", "mixed-e", "mixed-n", "N-shape", "X-shape",
               "D-shape-2d", "D-shape-1d", "X-shape-1d", "D-transposed-1d", "names-more", "names-fewer", "names-none", "names-str",
-              "xnames-more", "xnames-fewer", "xnames-none", "xnames-str"]
+              "xnames-more", "xnames-fewer", "xnames-none", "xnames-str",
+              "names-str-len", "names-str-len", "names-str-otherlen", "xnames-str-len", "xnames-str-otherlen"]
     for it in range((4 if quick else 40) * len(faults)):
         f = faults[it % len(faults)]
         nn, ne = rnd.choice([s for s in shapes if s[0] >= 2 and s[1] >= 2 and s[0] != s[1]])
@@ -629,9 +704,9 @@ def generate(tier, seed, mixed=True):
         nx = rnd.randint(0, 2)
         if f.startswith("X-") or f.startswith("xnames"):
             nx = rnd.randint(1, 3)
-        if f == "names-str":
+        if f in ("names-str", "names-str-len", "names-str-otherlen"):
             nd = rnd.randint(2, 4)
-        if f == "xnames-str":
+        if f in ("xnames-str", "xnames-str-len", "xnames-str-otherlen"):
             nx = rnd.randint(2, 3)
         a = build(rnd, nn, ne, nd, nx, two_d, dims=rnd.choice(DIMS))
         if isinstance(a["data"], np.ndarray) and (f.startswith("D-") or f.startswith("names")):
@@ -640,6 +715,10 @@ def generate(tier, seed, mixed=True):
             a["dnames"] = [a["dnames"]]
         if isinstance(a["xnames"], str):
             a["xnames"] = [a["xnames"]]
+        if it % 2 and not f.startswith("names-str") and not f.startswith("xnames-str"):
+            a["dnames"] = tuple(a["dnames"])      # names as list and as tuple
+            if a["xnames"] is not None:
+                a["xnames"] = tuple(a["xnames"])
         if f == "E-row":
             perturb(rnd, a["ce"], (rnd.randrange(1, nn), rnd.randrange(ne)), big=True)
         elif f == "E-row0":
@@ -684,9 +763,44 @@ def generate(tier, seed, mixed=True):
             a["xnames"] = list(a["xnames"])[:-1]
         elif f == "xnames-none":
             a["xnames"] = None
+        elif f in ("names-str-len", "names-str-otherlen"):
+            # one string whose LENGTH is (is not) the number of arrays: still one name for nd >= 2 arrays
+            n_chars = nd if f == "names-str-len" else rnd.choice([c for c in (1, 2, 3, 4, 5, 6) if c != nd])
+            a["dnames"] = "".join(rnd.sample("uvwxyzabc", n_chars))
+        elif f in ("xnames-str-len", "xnames-str-otherlen"):
+            n_chars = nx if f == "xnames-str-len" else rnd.choice([c for c in (1, 2, 3, 4, 5) if c != nx])
+            a["xnames"] = "".join(rnd.sample("pqrstklm", n_chars))
         elif f == "xnames-str":
             a["xnames"] = a["xnames"][0]
         cases.append(case_make(vd, a, "reject-" + f, "make"))
+
+    # 3a. names given as str / list / tuple for 1..4 arrays: accepted exactly when the count matches, a str being ONE name
+    k = 0
+    for nd in range(1, 5):
+        for nx in range(0, 4):
+            for style in ("str1", "strN", "list", "tuple", "list-short", "tuple-long"):
+                for who in ("data", "extra"):
+                    count = nd if who == "data" else nx
+                    if count == 0:
+                        continue
+                    k += 1
+                    if quick and k % 4 in (1, 2):
+                        continue
+                    nn, ne = rnd.choice([s for s in shapes if s[0] * s[1] >= 2])
+                    a = build(rnd, nn, ne, nd, nx, bool(k % 2), dims=DIMS[k % len(DIMS)])
+                    if isinstance(a["data"], np.ndarray):
+                        a["data"] = (a["data"],)
+                    alphabet = "uvwxyzabc" if who == "data" else "pqrstklm"
+                    if style == "str1":
+                        nm = rnd.choice(alphabet)                        # a one-character name: valid iff count == 1
+                    elif style == "strN":
+                        nm = "".join(rnd.sample(alphabet, max(count, 2)))   # as many characters as arrays: ONE name
+                    else:
+                        m = count + (-1 if style == "list-short" else 1 if style == "tuple-long" else 0)
+                        names = ["%s%d" % (rnd.choice(alphabet), i) for i in range(m)]
+                        nm = names if style.startswith("list") else tuple(names)
+                    a["dnames" if who == "data" else "xnames"] = nm
+                    cases.append(case_make(vd, a, "names-%s-%s" % (who, style), "make"))
 
     # 3b. single-row / single-column 2-D coordinates: non-meshgrids (the other axis has nothing to compare) and genuine controls
     line_shapes = [(1, k) for k in range(2, R + 3)] + [(k, 1) for k in range(2, R + 3)]
@@ -908,6 +1022,36 @@ def generate(tier, seed, mixed=True):
             cases.append(case_to_from(vd, np.asarray(a["ce"]), np.asarray(a["cn"]), a["extras"], "reject-nan-coordinate", "to_from"))
         else:
             cases.append(case_make(vd, a, "reject-nan-coordinate", "make"))
+
+    # 5d. variables and extra coordinates of different dtypes (float64 next to 64-bit integers beyond 2**53, float32,
+    #     int32, bool): every value must come through exactly, whatever common dtype a shortcut would promote to
+    k = 0
+    for (nn, ne) in shapes * (1 if quick else 3) + ([] if quick else big[::3]):
+        for variant in range(6):
+            k += 1
+            if quick and (k + nn) % 2:
+                continue
+            nx = rnd.randint(0, 2)
+            if variant == 0:
+                a = build(rnd, nn, ne, rnd.randint(2, 4), nx, bool(k % 2), dims=DIMS[k % len(DIMS)], dtypes=True)
+                cases.append(case_round(vd, a, "round-dtypes", "round"))
+            elif variant == 1:
+                a = build(rnd, nn, ne, rnd.randint(1, 4), nx, bool(k % 2), dims=DIMS[k % len(DIMS)], dtypes=True)
+                cases.append(case_make(vd, a, "make-dtypes", "make"))
+            elif variant in (2, 3, 4):
+                perm = list(range(2 + nx))
+                rnd.shuffle(perm)
+                mode = ["dataset", "dataset", "member", "named", "unnamed"][k % 5]
+                nd = rnd.randint(2, 4) if mode in ("dataset", "member") else 1
+                tr = set()
+                if variant == 4 and mode == "dataset" and nn >= 2 and ne >= 2:
+                    tr.add(("data", rnd.randrange(1, nd)))
+                g, recipe = direct_grid(rnd, nn, ne, nd, nx, DIMS[1 + k % (len(DIMS) - 1)], perm, mode, transposed=tr, dtypes=True)
+                cases.append(case_table(vd, g, "table-dtypes-" + mode, "table-dtypes", recipe))
+            else:
+                g, recipe = coords_first_grid(vd, rnd, nn, ne, rnd.randint(2, 3), max(nx, 1), DIMS[1 + k % (len(DIMS) - 1)],
+                                              hows[k % 3], dtypes=True)
+                cases.append(case_table(vd, g, "table-dtypes-coords-first", "table-dtypes", recipe))
 
     # 6. dims declared in a different order than the first variable's (the input class of finding F6)
     if mixed:
